@@ -52,6 +52,7 @@ type regExec struct {
 	log    *[][]any
 	routes []*rux.Route
 	useCtl bool
+	style  int // varies which registration API realises an "add" statement
 	trace  *traceWriter
 	// shared != nil: every statement's middleware is a sub-slice (with spare capacity) of ONE caller-owned list, the
 	// way an application passes mws[:k]... ; the router must not write into the caller's list
@@ -141,7 +142,20 @@ func (x *regExec) run(prog []regStmt, i int) int {
 		case "use":
 			x.r.Use(x.mws(pos, st.Mw)...)
 		case "add":
-			rt := x.r.GET(tokStr(st.Path), x.handler(pos, 0), x.mws(pos, st.Mw)...)
+			// the ways to register a GET route with its own middleware: all of them put the group's middleware first
+			var rt *rux.Route
+			pth, h, mws := tokStr(st.Path), x.handler(pos, 0), x.mws(pos, st.Mw)
+			switch (pos + st.Mw + x.style) % 4 {
+			case 1: // the route carries its middleware before it is registered
+				rt = rux.NewRoute(pth, h, "GET").Use(mws...)
+				rt.AttachTo(x.r)
+			case 2:
+				rt = x.r.AddRoute(rux.NewNamedRoute(fmt.Sprintf("n%d", pos), pth, h, "GET").Use(mws...))
+			case 3:
+				rt = x.r.Add(pth, h, "GET").Use(mws...)
+			default:
+				rt = x.r.GET(pth, h, mws...)
+			}
 			x.routes = append(x.routes, rt)
 			if x.trace != nil {
 				pth := st.Path
@@ -169,7 +183,7 @@ func regReplay(s *Summary, raw json.RawMessage) {
 	for variant := 0; variant < 3; variant++ {
 		useCtl := variant == 1
 		log := [][]any{}
-		x := &regExec{r: rux.New(), log: &log, useCtl: useCtl}
+		x := &regExec{r: rux.New(), log: &log, useCtl: useCtl, style: variant}
 		if variant == 2 {
 			x.offs = map[int]int{}
 			x.shared = []rux.HandlerFunc{}
